@@ -27,6 +27,10 @@ func init() {
 		Technique: "who-may-call on the store surface, linear bound proof at the GetRange call site (per phi edge), status-code table classification with assumption pruning, must-precede for deadlines, context provenance, result-shape rules",
 		Trusted:   "go/types+go/ssa; header.Store methods honour their context; libp2p stream and serde library behaviour",
 		Run:       runC10,
+		Imports: []Import{
+			{From: "C08.b", Match: "tier-purged", As: "C10.h", Why: "the server answers from the Store read path: a pruned header must be gone from every tier, or it is served after deletion"},
+			{From: "C14.d", Match: "cache-purge", As: "C10.h", Why: "same: the parallel deletion path purges the caches the server reads through"},
+		},
 	})
 }
 
@@ -465,7 +469,9 @@ func runC10(c *an.Ctx) {
 		}
 		c.Min("C10.f", "nil-error returns of "+an.FuncName(fn), n, 1)
 	}
-	checkSingle(byHash, "Get", func(t *an.Terms, call *ssa.Call) bool { return len(call.Call.Args) == 2 && t.Of(call.Call.Args[1]) == "p2" })
+	checkSingle(byHash, "Get", func(t *an.Terms, call *ssa.Call) bool {
+		return len(call.Call.Args) == 2 && t.Of(call.Call.Args[1]) == "p2"
+	})
 	checkSingle(headFn, "Head", func(t *an.Terms, call *ssa.Call) bool { return true })
 	nR := 0
 	for _, r := range rf.Returns() {
